@@ -265,6 +265,36 @@ void opParse(const std::string& op, const std::string& text)
     if (d != tracedDump) std::cout << "TRACED-DOCUMENT-DIFFERS\n" << tracedDump << "END-TRACED-DOCUMENT\n";
 }
 
+// ---------------------------------------------------------------------------------------------- invariants as stored
+// what the type checker stored as the invariant of every location (RateDecomposer): the operands of the left-nested conjunction it builds,
+// the cost rate, the document's stop-watch / strict-invariant flags, the diagnostics
+void opRateDec(const std::string& text)
+{
+    Document doc;
+    try {
+        parse_XML_buffer(text.c_str(), &doc, true);
+    } catch (std::exception& ex) {
+        std::cout << "EXCEPTION " << vh::quote(ex.what()) << "\n";
+    }
+    for (auto& t : doc.get_templates()) {
+        for (auto& l : t.locations) {
+            std::vector<std::string> conj;
+            expression_t e = l.invariant;
+            while (!e.empty() && e.get_kind() == AND && e.get_size() == 2) {
+                conj.push_back(e[1].str());
+                e = e[0];
+            }
+            if (!e.empty()) conj.push_back(e.str());
+            std::cout << "RD " << t.uid.get_name() << " " << l.uid.get_name() << " cost=" << (l.cost_rate.empty() ? std::string("-") : vh::quote(l.cost_rate.str()));
+            for (auto it = conj.rbegin(); it != conj.rend(); ++it) std::cout << "\t" << *it;
+            std::cout << "\n";
+        }
+    }
+    std::cout << "RDFLAGS stopwatch=" << doc.has_stop_watch() << " strict=" << doc.has_strict_invariants() << "\n";
+    for (auto& e : doc.get_errors()) std::cout << "RDERR " << vh::quote(e.msg) << "\n";
+    for (auto& e : doc.get_warnings()) std::cout << "RDWARN " << vh::quote(e.msg) << "\n";
+}
+
 // ---------------------------------------------------------------------------------------------- C20
 std::string attr(xmlNodePtr n, const char* name)
 {
@@ -419,6 +449,7 @@ int main(int argc, char** argv)
         std::cin.get();
         std::cout << "BEGIN " << id << " " << op << "\n";
         if (op == "xml" || op == "xta" || op == "xml0" || op == "xta0") opParse(op, text);
+        else if (op == "ratedec") opRateDec(text);
         else if (op == "write" || op == "writeL") {
             // the writer is known to crash on some documents: run it in a child so that one crash costs one case
             std::cout.flush();
